@@ -93,7 +93,9 @@ class Faults(Part):
         if mixed:
             # parameters described differently: the first declares a rounding precision (its bounds are multiples of it), a later one is a
             # narrow box without any: every parameter of a replacement design is sampled according to its OWN declaration
-            bounds = [[-5.0, 5.0]] + [rng.choice([[0.2, 0.4], [1e-9, 2e-9], [-3.0, -1.0]]) for _ in range(dim - 1)]
+            first = rng.choice([([-5.0, 5.0], [1.0, 0.5]), ([0.25, 0.75], [0.25]), ([0.125, 0.875], [0.125]), ([-1.75, 2.25], [0.25])])
+            bounds = [list(first[0])] + [rng.choice([[0.2, 0.4], [1e-9, 2e-9], [-3.0, -1.0]]) for _ in range(dim - 1)]
+            mixed_prec = rng.choice(first[1])
         gate = None
         if workers > 1:
             import threading
@@ -109,7 +111,7 @@ class Faults(Part):
         rec = jobrec.Rec(dim=dim, m=rng.randint(1, 2), bounds=bounds, constrained=rng.random() < 0.5, script=script, gate=gate,
                          mode="serial" if workers == 1 else "parallel", workers=workers)
         if mixed:
-            rec.problem.parameters[0]['precision'] = rng.choice([1.0, 0.5])
+            rec.problem.parameters[0]['precision'] = mixed_prec
         vectors = [[rng.uniform(b[0], b[1]) for b in bounds] for _ in range(n)]
         rec.new_batch(vectors, pre=pre)
         exc = jobrec.evaluate_batch(rec, workers=workers)
